@@ -113,6 +113,9 @@ def gen_case(rng, pid, tier):
                     rng.choice([5000, 5001]), rng.choice([1, 77]), rng.choice([80, 22])]
         return ['gci', gk, rng.choice([0, 1, 1, 1, 2, 3]), newo, item]
 
+    def gcf_op():
+        return ['gcf', rng.choice(['vgc', 'rgc', 'egc'])]
+
     def touch_op():
         return ['touch', rng.choice([['v', rng.choice(nearby)], ['v', rng.choice(nearby)],
                                      ['j', rng.choice(['README', '10.0.0', 'x.y'])],
@@ -161,7 +164,7 @@ def gen_case(rng, pid, tier):
         elif r < 0.34:
             ops.append(['vfree', o, rng.choice(allips[:7] if not malformed else nearby)])
         elif r < 0.40:
-            ops.append(gc_op('vgc'))
+            ops.append(gc_op('vgc') if rng.random() < 0.85 else ['gcf', 'vgc'])
         elif r < 0.42:
             ops.append(['vinit'] if rng.random() < 0.4 else ['vlist'])
         elif r < 0.52:
@@ -170,7 +173,7 @@ def gen_case(rng, pid, tier):
         elif r < 0.60:
             ops.append(['runlink', rng.choice(rules), o])
         elif r < 0.64:
-            ops.append(gc_op('rgc'))
+            ops.append(gc_op('rgc') if rng.random() < 0.85 else ['gcf', 'rgc'])
         elif r < 0.73:
             sp = rng.choice(specs)
             # mostly the natural owner of the app, sometimes another one
@@ -186,7 +189,7 @@ def gen_case(rng, pid, tier):
             ops.append(['eunlinkall', sp[0], rng.choice([None, None, sp[1]]), rng.choice([None, None, sp[2]]),
                         None if (malformed and rng.random() < 0.2) else o])
         elif r < 0.87:
-            ops.append(gc_op('egc'))
+            ops.append(gc_op('egc') if rng.random() < 0.85 else ['gcf', 'egc'])
         elif r < 0.94:
             who = o if o in live or rng.random() < 0.1 else rng.choice(sorted(live) or [o])
             env = envof.get(who, 'dev') if rng.random() < 0.9 else rng.choice(ENVS)
@@ -207,7 +210,7 @@ def gen_case(rng, pid, tier):
             ops.append(['ssync'])
         elif malformed:
             ops.append(touch_op())
-    return {'cidr': cidr, 'ops': ops}
+    return {'cidr': cidr, 'ops': ops, 'symvips': rng.random() < 0.25}
 
 
 def case_ops(case):
@@ -215,7 +218,7 @@ def case_ops(case):
 
 
 def with_ops(case, ops):
-    return {'cidr': case['cidr'], 'ops': list(ops)}
+    return {'cidr': case['cidr'], 'ops': list(ops), 'symvips': case.get('symvips', False)}
 
 
 # --------------------------------------------------------------------------------------
@@ -364,6 +367,12 @@ def _run(case, root):
             'rule': os.path.join(root, 'rules'), 'ep': os.path.join(root, 'eps')}
     os.makedirs(owners_dir)
     os.makedirs(dirs['rule'])
+    if case.get('symvips'):
+        # the vips directory is a symbolic link to a directory elsewhere (another file system, a versioned
+        # install ...): relative owner links must be computed from where the directory really is
+        real_vips = os.path.join(root, 'real', 'deeper', 'still', 'vips')
+        os.makedirs(real_vips)
+        os.symlink(real_vips, dirs['vip'])
     net = ipaddress.IPv4Network(case['cidr'])
     kern = FakeKernel()
     intern = Interner()
@@ -380,7 +389,7 @@ def _run(case, root):
     def target(path):
         if os.path.islink(path):
             tgt = os.readlink(path)
-            full = os.path.normpath(os.path.join(os.path.dirname(path), tgt))
+            full = os.path.normpath(os.path.join(os.path.realpath(os.path.dirname(path)), tgt))
             if os.path.dirname(full) != os.path.realpath(owners_dir):
                 return 'badtarget:%s' % tgt
             return os.path.basename(tgt)
@@ -614,6 +623,38 @@ def _run(case, root):
                 elif kind == 'rgc':
                     line, site = 'rgc', 'RuleMgr.garbage_collect'
                     rules.garbage_collect()
+                elif kind == 'gcf':
+                    # a collection during which the owners cannot be stat'ed (EACCES / EIO on the owners directory):
+                    # nothing may be reclaimed on the strength of a failed stat
+                    gk = op[1]
+                    tbl = {'vgc': 'vip', 'rgc': 'rule', 'egc': 'ep'}[gk]
+                    site = {'vgc': 'VipMgr.garbage_collect', 'rgc': 'RuleMgr.garbage_collect',
+                            'egc': 'endpoints.garbage_collect'}[gk] + '+stat-failure'
+                    real_stat = os.stat
+                    failed = [0]
+
+                    def stat_w(path, *a, **kw):
+                        if isinstance(path, str) and path.startswith(dirs[tbl] + os.sep):
+                            failed[0] += 1
+                            raise OSError(errno.EACCES, 'harness: injected stat failure', path)
+                        return real_stat(path, *a, **kw)
+                    try:
+                        with mock.patch('os.stat', stat_w):
+                            if gk == 'vgc':
+                                vips.garbage_collect()
+                            elif gk == 'rgc':
+                                rules.garbage_collect()
+                            else:
+                                endpoints.garbage_collect(dirs['ep'])
+                        # no stat was needed or the failure was tolerated: this was an ordinary collection
+                        line = gk
+                        kind = gk
+                    except OSError as e_:
+                        if e_.errno != errno.EACCES:
+                            raise
+                        line = 'nop'
+                        kind = 'gcf-stopped'
+                    stats['gc_stat_failure'] = stats.get('gc_stat_failure', 0) + 1
                 elif kind == 'gci':
                     _, gk, kcall, newo, item = op
                     tbl = {'vgc': 'vip', 'rgc': 'rule', 'egc': 'ep'}[gk]
